@@ -49,6 +49,12 @@ struct Job {
 }
 
 impl Job {
+    /// The non-termination guard (drive.rs) lives in thread-local state: the thread that is going to drain an
+    /// evaluator over this job's ranges announces it here (allowance + fresh cycle detector + guard sink).
+    fn guard(&self) {
+        verif_harness::drive::allow(&self.ranges);
+    }
+
     fn evaluator(&self) -> FlopExhaustiveEvaluator {
         let board = Arc::new(verif_harness::drive::board_of(&self.flop));
         let mut e = FlopExhaustiveEvaluator::new(&board, &self.ranges);
@@ -57,6 +63,7 @@ impl Job {
     }
 
     fn solo(&self) -> Vec<Key> {
+        self.guard();
         self.evaluator().into_iter().map(|sd| key(&sd)).collect()
     }
 }
@@ -122,6 +129,7 @@ fn round(jobs: &[Job], solos: &[Vec<Key>], seed: u64, inject: bool, out: &mut Ou
             let mut rng = Rng::new(mix2(seed, i as u64));
             let mut seq: Vec<Key> = Vec::new();
             let mut tickets: Vec<u64> = Vec::new();
+            job.guard();
             barrier.wait();
             for sd in evaluator {
                 tickets.push(TICKET.fetch_add(1, Ordering::Relaxed));
@@ -181,6 +189,7 @@ fn round(jobs: &[Job], solos: &[Vec<Key>], seed: u64, inject: bool, out: &mut Ou
 
 /// An iterator advanced on one thread, handed to another thread mid-way, finished there.
 fn handoff(job: &Job, solo: &[Key], split: usize, out: &mut Outcome) {
+    job.guard();
     let mut it = job.evaluator().into_iter();
     let mut seq: Vec<Key> = Vec::new();
     for _ in 0..split {
@@ -189,7 +198,10 @@ fn handoff(job: &Job, solo: &[Key], split: usize, out: &mut Outcome) {
             None => break,
         }
     }
+    let moved_job = job.clone();
     let rest = std::thread::spawn(move || {
+        // the second half runs under a fresh detector: a state of the first half cannot be mistaken for a repeat
+        moved_job.guard();
         let mut tail = Vec::new();
         for sd in it {
             tail.push(key(&sd));
@@ -211,6 +223,7 @@ fn handoff(job: &Job, solo: &[Key], split: usize, out: &mut Outcome) {
 
 /// Shared (Sync) use: several threads read the same range, the same showdowns.
 fn shared_use(job: &Job, solo: &[Key], parse_too: bool, out: &mut Outcome) {
+    job.guard();
     let showdowns: Arc<Vec<Showdown>> = Arc::new(job.evaluator().into_iter().collect());
     let ranges = job.ranges.clone();
     let mut handles = Vec::new();
@@ -267,7 +280,15 @@ fn main() {
         let (positions, combos) = if small { (10, 3) } else { (120, 8) };
         let jobs = make_jobs(&mut rng, n_threads, positions, combos);
         // solo sequences first, from evaluators over the very same range objects
-        let solos: Vec<Vec<Key>> = jobs.iter().map(|j| j.solo()).collect();
+        let solos: Vec<Vec<Key>> = match verif_harness::util::catch(|| jobs.iter().map(|j| j.solo()).collect()) {
+            Ok(s) => s,
+            Err(p) if p.contains(verif_harness::drive::BOUND_PANIC) => {
+                // an evaluator iterated alone does not end: nothing to compare threaded runs with (C02/C08's subject)
+                println!("THREADS-REPORT {}", Json::obj().set("mode", Json::str(mode)).set("solo_run_does_not_end", Json::str(p)).to_string_compact());
+                std::process::exit(3);
+            }
+            Err(p) => panic!("solo run panicked: {}", p),
+        };
         round(&jobs, &solos, mix2(seed, r as u64), r % 2 == 1, &mut out);
         if r % 4 == 0 || small {
             let split = rng.usize_below(solos[0].len() + 1);
